@@ -165,6 +165,7 @@ def fresh_state(interp, ctx, shape, prefix='s.', src=None):
     f['all_in_status'] = b.bool('all_in_status')
     f['status'] = b.bool('status')
     f['operations'] = A('list', TailSeq(prefix + 'operations'))
+    b.wf.append(z3.Int(f'len!{prefix}operations') >= 0)
     f['ante_posting_statuses'] = A('list', b.seq('ante_posting_statuses', n, b.bool, fixed=True))
     f['bet_collection_status'] = b.bool('bet_collection_status')
     f['blind_or_straddle_posting_statuses'] = A('list', b.seq('blind_or_straddle_posting_statuses', n, b.bool, fixed=True))
